@@ -213,6 +213,9 @@ def expectation(v, flavour, op):
         exp, sps = with_artefacts(v, o)
         return not multi_peer(o), exp, sps, ''
     if k == 'remove_link':
+        if x is not None and any(v.typ(e) == 'ServicePort' for e in v.ends(x)):
+            # a link made by connect_interface / peer: refused (fix 65db950), nothing may change
+            return False, set(), {}, 'peering link'
         return (x is not None), ({x} if x is not None else set()), {}, ''
     if k in ('remove_ns', 'remove_component', 'node_remove_ns', 'remove_interface', 'remove_child'):
         if x is None or (k == 'remove_interface' and flavour == 'exp') or \
@@ -249,6 +252,12 @@ def expectation(v, flavour, op):
         if len(trip) > 1:
             return False, None, {}, 'peered more than once'
         p, l, q = trip[0]
+        chain = [(x, m, y) for x in v.nb(a, 'connects') for m in v.nb(x, 'connects') if v.cls(m) == 'Link'
+                 for y in v.nb(m, 'connects') if y != x and b in v.nb(y, 'connects')]
+        if len(chain) > 1:
+            # the services peer AND one is connected to a port of the other: several 5-node paths, the code tests only
+            # the one networkx happens to pick (it may refuse the genuine peering)
+            return False, {p, l, q}, {}, 'peered and connected'
         return True, {p, l, q}, {}, ''
     if k == 'prune':
         t = prune_targets(v, op[1])
@@ -301,8 +310,8 @@ class Removals(Stream):
         for _ in range(nh):
             fl = 'exp' if rng.random() < 0.72 else 'sub'
             steps = rng.randrange(4, 22 if tier == 'quick' else 38)
-            hist, snap = B.gen_history(rng, fl, steps)
-            ops = B.enumerate_removals(snap, fl, rng)
+            hist, snap, kept = B.gen_history(rng, fl, steps)
+            ops = B.enumerate_removals(snap, fl, rng, kept=kept)
             ops = [o for o in ops if rng.random() < self.QUOTA.get(o[0], 1.0) or tier != 'quick']
             if fl == 'exp':      # remove_interface always refuses in experiment topologies: keep a few
                 ops = [o for o in ops if o[0] != 'remove_interface' or rng.random() < 0.08]
@@ -349,6 +358,12 @@ class Removals(Stream):
             nh = 1 if op[0] == 'disconnect' else len(hs)
             hids = [h.node_id for h in hs[:nh]]
             before = [B.if_ids(h) for h in hs[:nh]]
+            fresh_before = []
+            for h in hs[:nh]:
+                try:
+                    fresh_before.append(B.if_ids(type(h)(name=h.name, node_id=h.node_id, topo=env.t)))
+                except Exception:
+                    fresh_before.append(None)
             try:
                 B.call_removal(env, op, hs)
                 outcome = 'ok'
@@ -367,7 +382,7 @@ class Removals(Stream):
                 except Exception as e:
                     fresh.append(None)
             return {'pre': pre, 'post': post, 'outcome': outcome, 'before': before, 'after': after, 'fresh': fresh,
-                    'hids': hids, 'history_errors': env.errors}
+                    'fresh_before': fresh_before, 'hids': hids, 'history_errors': env.errors}
         except Exception as e:
             Removals._cache = None
             return {'harness_error': repr(e)}
@@ -467,6 +482,9 @@ class Removals(Stream):
         applicable, exp, sps, note = expectation(v, case['flavour'], op)
         removed = set(pre['nodes']) - set(post['nodes'])
         if o['outcome'] != 'ok':
+            if note == 'peered and connected':
+                bad.append(('unpeer-refused op=unpeer peered-and-connected',
+                            'the services peer, but unpeer raised %s (another 5-node path runs through a node port)' % o['outcome']))
             if applicable:
                 bad.append(('applicable-removal-raised op=%s exc=%s' % (k, o['outcome']),
                             'applicable %s raised %s' % (op, o['outcome'])))
@@ -488,7 +506,19 @@ class Removals(Stream):
             if rest:
                 bad.append(('not-deleted op=%s%s' % (k, (' ' + note.replace(' ', '-')) if note else ''),
                             'owned elements or artefacts left behind: %s' % [(v.cls(i), v.name(i)) for i in rest]))
-        for h, a, fr in zip(o['hids'], o['after'], o['fresh']):
+        fb = o.get('fresh_before') or [None] * len(o['hids'])
+        for h, b, a, fr, frb in zip(o['hids'], o['before'], o['after'], o['fresh'], fb):
+            if frb is not None and b != frb:
+                # the handle was already stale before the call (a long-lived handle while the service was changed
+                # through another one): it must at least stop reporting what the call deleted, and change nothing else
+                want = [x for x in b if x not in removed]
+                if a is not None and a != want:
+                    bad.append(('stale-handle-not-updated op=%s' % k,
+                                'long-lived handle %s reported %s before, %s after; deleted %s'
+                                % (v.name(h), [pre['nodes'].get(i, {}).get('Name') for i in b],
+                                   [pre['nodes'].get(i, {}).get('Name') for i in a],
+                                   sorted(v.name(i) for i in removed))))
+                continue
             if fr is not None and a != fr:
                 bad.append(('stale-handle op=%s' % k,
                             'handle %s reports interfaces %s, a fresh look-up reports %s'
@@ -532,6 +562,10 @@ class Removals(Stream):
                 inc('harness_error')
                 continue
             inc('op:' + c['op'][0])
+            if c['op'][-1] == 'K':
+                inc('through_long_lived_handle')
+                if o.get('fresh_before') and any(b != f for b, f in zip(o['before'], o['fresh_before']) if f is not None):
+                    inc('through_long_lived_handle_that_was_stale')
             inc('flavour:' + c['flavour'])
             inc('outcome:' + o['outcome'])
             n = len(o['pre']['nodes'])
